@@ -64,6 +64,8 @@ type Submission struct {
 }
 
 type AgglayerModel struct {
+	// NoPrevLER: headers carry no prev_local_exit_root (optional field of the API)
+	NoPrevLER bool
 	w         *World
 	epoch     int
 	NetworkID uint32
@@ -297,6 +299,10 @@ func (m *AgglayerModel) header(c *AgCert) *v1nodetypes.CertificateHeader {
 		NewLocalExitRoot:  &v1types.FixedBytes32{Value: c.NewLER.Bytes()},
 		Metadata:          &v1types.FixedBytes32{Value: c.Metadata.Bytes()},
 		Status:            v1nodetypes.CertificateStatus(c.Status),
+	}
+	if m.NoPrevLER {
+		// older Agglayers do not report the previous local exit root in a certificate header
+		h.PrevLocalExitRoot = nil
 	}
 	if c.Status == agInError {
 		h.Error = &v1nodetypes.CertificateStatusError{Message: []byte("model: certificate in error")}
